@@ -216,7 +216,17 @@ def Mon.step (m : Mon) (op out : String) : Mon × Option String :=
     let v : Option Value := match resDec (out.drop 4).toString with | some (.ok v) => some v | _ => none
     ({ m with vals := (h, v) :: m.vals }, if out == "val=panic" then some "panic" else none)
   | ["ev", _] => (m, if (words out).getLast? == some "panic" then some "panic" else none)
-  | ["hash", _] => (m, if out == "calls=panic" then some "panic" else none)
+  | ["hash", h] =>
+    if out == "calls=panic" then (m, some "panic")
+    else
+      -- self-check of the model: the text-level hash is the event-level hash of the text's events (the link between
+      -- `hashCalls` and the theorems about `hashEvs`), once the implicit-record decision is event based
+      match charsOfHex h with
+      | some t =>
+        if Generated.ReconEq.implicitByStructure && inFloatFragment t && (events t).2 = .fin &&
+            hashCalls t != hashEvs [] (events t).1 then (m, some "model-self-check:hash-events")
+        else (m, none)
+      | none => (m, none)
   | ["pair", a, b] => (m, pairVerdict a b out)
   | "keys" :: hs => (m, keysVerdict m hs out)
   | _ => (m, none)
